@@ -4,7 +4,7 @@ Environment stubs (listed in the evidence): a *recording* hash object (digest = 
 concatenated updates, block_size 2) registered under the algorithm name "rec" -- injective, so
 equal digests <=> equal content; an in-memory directory whose entries answer
 is_file()/is_symlink() like a POSIX file system (is_file follows links), `open` and
-`os.readlink` of the hashsums module rebound to it, `resolve()` lexical (no link chains).
+`os.readlink` of the hashsums module rebound to it, `resolve()` physical like pathlib (link chains followed).
 """
 import vt.shims  # noqa: F401
 from vt.part import SEL, reach
@@ -136,8 +136,28 @@ class FP(PurePosixPath):
         return t is not None and t._info()[0] == "d"
 
     def resolve(self):
-        # lexical normalisation (stub: real resolve also follows link chains; chains are excluded)
-        return FP(posixpath.normpath(str(self)))
+        # physical resolution like pathlib (strict=False): components left to right, symlinks followed
+        # (chains too), ".." taken physically, missing components kept; validated by fidelity()
+        return FP(_resolve(str(self)))
+
+
+def _resolve(path, depth=0):
+    if depth > 8:
+        raise RuntimeError("Symlink loop from %r" % path)
+    segs = [x for x in path.split("/") if x and x != "."]
+    cur = "/"
+    for i, x in enumerate(segs):
+        if x == "..":
+            cur = posixpath.dirname(cur)
+            continue
+        nxt = posixpath.join(cur, x)
+        info = WORLD.get(nxt)
+        if info is not None and info[0] == "l":
+            tgt = info[1] if info[1].startswith("/") else posixpath.join(cur, info[1])
+            rest = "/".join(segs[i + 1:])
+            return _resolve(posixpath.join(tgt, rest) if rest else tgt, depth + 1)
+        cur = nxt
+    return cur
 
 
 class Dir(FP):
@@ -163,7 +183,7 @@ def _readlink(p):
 
 
 HS.open = _open
-HS.os = types.SimpleNamespace(readlink=_readlink)
+HS.os = types.SimpleNamespace(readlink=_readlink, path=posixpath)
 
 ABSENT, FILE, LINK, DIRK = 0, 1, 2, 3
 TARGETS = ["a", "d", "../o/f", "d/../a", "nx"]  # relative to ROOT
@@ -173,7 +193,7 @@ CONTENTS = [b"", b"x", b"xy"]
 def make_world(slots, kinds, cids, tids, out_exists):
     """slots: list of relative paths (parents before children). Returns abstract description
     {rel: ("f", content) | ("l", target rel-to-root) | ("d",)} of present entries, or None if
-    a link chain (link -> link) would arise (outside the stub's fidelity)."""
+    a symlink cycle would arise (outside the claim: pathlib raises RuntimeError there)."""
     WORLD.clear()
     WORLD[ROOT] = ("d",)
     WORLD["/o"] = ("d",)
@@ -200,8 +220,12 @@ def make_world(slots, kinds, cids, tids, out_exists):
     for rel, d in desc.items():
         if d[0] == "l":
             tgt = posixpath.normpath(d[1])
-            if desc.get(tgt, (None,))[0] == "l":
-                return None  # link -> link chain
+            seen, cur = {rel}, tgt
+            while desc.get(cur, (None,))[0] == "l":  # link -> link chains are followed; cycles are outside the claim
+                if cur in seen:
+                    return None
+                seen.add(cur)
+                cur = posixpath.normpath(desc[cur][1])
             if rel.split("/")[0] in d[1].split("/")[:-1] and "/" not in rel:
                 return None  # link text runs through the link itself (ELOOP on a real fs)
     return desc
@@ -322,6 +346,9 @@ def fidelity() -> int:
             (["a", "d", "d/x"], [FILE, DIRK, LINK], [1, 0, 0], [0, 0, 3]),
             (["a", "d", "d/x"], [FILE, LINK, ABSENT], [1, 0, 0], [0, 0, 0]),
             (["a", "d", "d/x"], [LINK, DIRK, DIRK], [0, 0, 0], [2, 0, 0]),
+            (["a", "d", "d/x"], [LINK, LINK, ABSENT], [0, 0, 0], [1, 4, 0]),  # chain a -> d -> nx
+            (["a", "d", "d/x"], [FILE, LINK, ABSENT], [1, 0, 0], [0, 3, 0]),  # d -> d/../a through itself: skipped (None)
+            (["a", "d", "d/x"], [LINK, DIRK, LINK], [0, 0, 0], [1, 0, 0]),    # a -> d (dir), d/x -> a: chain d/x -> a -> d
         ]
         for ci, (slots, kinds, cids, tids) in enumerate(cases):
             for out_exists in (False, True):
@@ -331,7 +358,8 @@ def fidelity() -> int:
                 if out_exists:
                     (root.parent / "o" / "f").write_bytes(b"out")
                 desc = make_world(slots, kinds, cids, tids, out_exists)
-                assert desc is not None
+                if desc is None:
+                    continue
                 for rel, d in desc.items():
                     p = root / rel
                     if d[0] == "f":
